@@ -55,7 +55,8 @@ type Step struct {
 	TTLMs    int      `json:"ttl_ms,omitempty"`
 	Type     string   `json:"type,omitempty"` // seeded pin type
 	Path     bool     `json:"path,omitempty"`
-	Via      string   `json:"via,omitempty"` // alert | remove
+	AsMeta   bool     `json:"as_meta,omitempty"` // the request is a meta entry (what the sharding adder sends over the Pin endpoint)
+	Via      string   `json:"via,omitempty"`     // alert | remove
 	Order    []int    `json:"order,omitempty"`
 	N        int      `json:"n,omitempty"`
 	Overlap  bool     `json:"overlap,omitempty"`
